@@ -870,6 +870,26 @@ theorem C07_quiet_quantity (vt ut : List Tok) (pct t0 : Tok) (s : BP α)
   have h := parseQuantity_quiet_pct vt ut pct t0 s h0 hws heq hvp hp hval hunit
   exact ⟨h.1.2.2, h.2⟩
 
+/-- **Empty unit, exactly.**  For quantity tokens `vt ++ [%] ++ ut` as in `C07_quiet_quantity` but with
+    ANY unit tokens: `parse_quantity` pushes the warning `empty-unit` (warning, parse), labelled with the
+    `%` token, and returns no unit, exactly when the unit text is blank (`{1%}`, `{1% }`); otherwise it
+    pushes nothing and returns the unit. -/
+theorem C07_empty_unit (vt ut : List Tok) (pct t0 : Tok) (s : BP α)
+    (h0 : vt.head? = some t0) (hws : isWsComment t0.kind = false)
+    (heq : t0.kind ≠ .eq) (hvp : ∀ t ∈ vt, t.kind ≠ .percent) (hp : pct.kind = .percent)
+    (hval : (∃ v, numOrRange (α := α) (s.ext.has Gen.EXT_RANGE_VALUES) vt = some (.ok v)) ∨
+      (numOrRange (α := α) (s.ext.has Gen.EXT_RANGE_VALUES) vt = none ∧
+        (buildText t0.start vt).isTextEmpty s.cs = false)) :
+    Pushed (if (buildText pct.stop ut).isTextEmpty s.cs then
+        [.warning ⟨.warning, .parse, "empty-unit", [⟨pct.start, pct.stop⟩]⟩] else [])
+      s (parseQuantity (α := α) (vt ++ pct :: ut) s).2 ∧
+    (parseQuantity (α := α) (vt ++ pct :: ut) s).1.quantity.val.unit =
+      (if (buildText pct.stop ut).isTextEmpty s.cs then none else some (buildText pct.stop ut)) :=
+  parseQuantity_pct_gen vt ut pct t0 s h0 hws heq hvp hp hval
+
+/-! non-vacuity: `1%` -/
+example : (buildText 2 ([] : List Tok)).isTextEmpty toyCharSpec = true := rfl
+
 /-- **A plain ingredient or timer with `{value%unit}` is quiet** (parser part), for every extension set.
     The component is cut into no modifier tokens, name tokens without alias separator (or
     COMPONENT_ALIAS off), a non-blank name (ingredient), and the quantity tokens of `C07_quiet_quantity`;
